@@ -226,7 +226,7 @@ impl Property for C17 {
 
     fn cases(&self, tier: Tier) -> u64 {
         match tier {
-            Tier::Quick => 400_000,
+            Tier::Quick => 1_200_000,
             Tier::Thorough => 6_000_000,
         }
     }
